@@ -15,7 +15,7 @@ for m in sorted(Path("/verif/seeded").glob("*/meta.json")):
                 first = line[:150]
                 break
     prev = d.get("previous_runs", [])
-    missed_first = bool(prev) and not prev[0].get("detected_by")
+    missed_first = (bool(prev) and not prev[0].get("detected_by")) or "missed" in d.get("note", "")
     keys = []
     for pid, c in d.get("checks", {}).items():
         if c.get("detected"):
